@@ -105,6 +105,95 @@ def exception_exhibits(exc):
     return out
 
 
+class TaintTracker:
+    """interior of the secret closure vs a real run: while a scenario runs, every call / return of a function of
+    the package is inspected (sys.setprofile); each local variable (and each attribute of `self`) whose value holds
+    a SECRET canary (str / bytes directly, containers and dataclasses through their repr) is recorded as
+    (file, qualname, variable) resp. attribute name.  props/c12.py requires every one of them to be a node of the
+    static closure `reach(sources)`: a tainted variable outside the closure is a missing edge of the extraction on a
+    secret's own path."""
+
+    def __init__(self):
+        self.seen = {}      # ("v", rel, qual, name) | ("a", attr) -> (role, scenario key)
+        self.busy = False
+        self.can = None
+        self.key = ""
+        self._rel = {}
+        self.frames = 0
+
+    def start(self, can, key):
+        self.can = [(r, c.core, c.core.encode()) for r, c in can.items() if r in SECRET_ROLES]
+        self.key = key
+        sys.setprofile(self._prof)
+
+    def stop(self):
+        sys.setprofile(None)
+
+    def _role(self, v, depth=0):
+        import dataclasses
+        try:
+            if isinstance(v, str):
+                for r, core, _ in self.can:
+                    if core in v:
+                        return r
+                return None
+            if isinstance(v, (bytes, bytearray)):
+                for r, _, b in self.can:
+                    if b in v:
+                        return r
+                return None
+            if isinstance(v, (list, tuple, dict, set, frozenset)) or (dataclasses.is_dataclass(v) and not isinstance(v, type)):
+                if isinstance(v, (list, tuple, dict, set, frozenset)) and len(v) > 200:
+                    return None
+                return self._role(repr(v), depth + 1) if depth < 2 else None
+        except Exception:
+            return None
+        return None
+
+    def _prof(self, frame, event, arg):
+        if self.busy or event not in ("call", "return"):
+            return
+        code = frame.f_code
+        fn = code.co_filename
+        rel = self._rel.get(fn)
+        if rel is None:
+            s_ = rel_site(fn, 1) if "scrapli" in fn else None
+            rel = self._rel[fn] = s_[0] if s_ else ""
+        if not rel:
+            return
+        self.busy = True
+        try:
+            self.frames += 1
+            qual = code.co_qualname
+            for suffix in (".<locals>.<genexpr>", ".<locals>.<listcomp>", ".<locals>.<dictcomp>", ".<locals>.<setcomp>", ".<locals>.<lambda>"):
+                while qual.endswith(suffix):
+                    qual = qual[: -len(suffix)]
+            if qual.startswith("<"):
+                return
+            if ".<locals>." in qual:
+                qual = f"{qual}#L{code.co_firstlineno}"
+            for name, val in list(frame.f_locals.items()):
+                if name.startswith("."):
+                    continue
+                r = self._role(val)
+                if r:
+                    self.seen.setdefault(("v", rel, qual, name), (r, self.key))
+                if name == "self":
+                    try:
+                        items = list(vars(val).items())
+                    except TypeError:
+                        items = []
+                    for a, av in items:
+                        ra = self._role(av)
+                        if ra:
+                            self.seen.setdefault(("a", a), (ra, self.key))
+        finally:
+            self.busy = False
+
+
+TRACKER = TaintTracker()
+
+
 class Runner:
     """runs a scenario body on the sync or the asyncio stack with the same code"""
 
@@ -209,7 +298,11 @@ def run_scenario(key, spec, seed, cap, meta=None):
     R.hook = hook
     try:
         try:
-            SCENARIOS[spec["kind"]](spec, can, res, R)
+            TRACKER.start(can, key)
+            try:
+                SCENARIOS[spec["kind"]](spec, can, res, R)
+            finally:
+                TRACKER.stop()
         except SimStall:
             res.outcome = "stall"
         except ScrapliException as e:
@@ -437,7 +530,7 @@ def sc_factory(spec, can, res, R):
     except Exception as e:
         res.exhibits += exception_exhibits(e)
     try:
-        cls(platform="cisco_iosxe", host="sim", transport=tr, auth_password=can["PW"].full, auth_strict_key=can["PW"].full)
+        cls(platform="cisco_iosxe", host="sim", transport=tr, auth_password=can["PW"].full, auth_strict_key="not-a-bool")
     except Exception as e:
         res.exhibits += exception_exhibits(e)
 
